@@ -240,6 +240,50 @@ plan, run_shard, replay_specs, _finish = module_api(
 )
 
 
+# ---------------------------------------------------------------- scheduled tier
+# Flag changes racing removals and each other under the deterministic scheduler.
+# Every rig session keeps, per position of its view, the flags it was last told
+# (own STORE/FETCH responses and notifications alike, EXPUNGEs applied in the
+# order received); at quiescence, after one more NOOP, that belief must be what
+# FETCH 1:* (FLAGS) says: "every change ... reaches every other selected session
+# by its next synchronisation point, and what was reported agrees with a
+# subsequent FETCH FLAGS".
+SCHED_SETS = [
+    [("INBOX", ["EXPUNGE", "NOOP"]), ("INBOX", ["UID STORE 5 +FLAGS (\\Flagged)", "NOOP"])],
+    [("INBOX", ["EXPUNGE", "NOOP"]), ("INBOX", ["STORE 5 +FLAGS (\\Flagged)", "NOOP"]), ("INBOX", ["NOOP"])],
+    [("INBOX", ["UID EXPUNGE 2", "NOOP"]), ("INBOX", ["UID STORE 3:5 +FLAGS.SILENT (kwx)", "NOOP"]), ("INBOX", ["UID FETCH 1:* (FLAGS)", "NOOP"])],
+    [("INBOX", ["UID STORE 1:* -FLAGS (\\Deleted)", "NOOP"]), ("INBOX", ["UID STORE 1,3 +FLAGS (\\Deleted)", "EXPUNGE"]), ("INBOX", ["NOOP", "NOOP"])],
+    [("INBOX", ["UID STORE 1 FLAGS (\\Seen)", "NOOP"]), ("INBOX", ["UID STORE 1 FLAGS (\\Answered)", "NOOP"]), ("INBOX", ["UID FETCH 1 (FLAGS)", "NOOP"])],
+    [("INBOX", ["UID FETCH 3 (BODY[])", "NOOP"]), ("INBOX", ["UID STORE 3 -FLAGS (\\Seen)", "NOOP"]), ("INBOX", ["NOOP"])],
+    [("INBOX", ["UID MOVE 2 other", "NOOP"]), ("INBOX", ["UID STORE 3:4 +FLAGS (kwx)", "NOOP"]), ("INBOX", ["NOOP"])],
+    [("INBOX", ["CLOSE"]), ("INBOX", ["UID STORE 5 +FLAGS (\\Flagged)", "NOOP"]), ("INBOX", ["NOOP", "NOOP"])],
+    [("INBOX", ["UID STORE 1:5 +FLAGS (\\Flagged)", "NOOP"]), ("INBOX", ["EXPUNGE", "NOOP"])],
+    [("INBOX", ["UID STORE 1:* FLAGS (kwx)", "NOOP"]), ("INBOX", ["UID STORE 3 +FLAGS (\\Deleted)", "EXPUNGE", "NOOP"]), ("INBOX", ["EXPUNGE", "NOOP"])],
+    [("INBOX", ["UID FETCH 1:4 (FLAGS)", "NOOP"]), ("INBOX", ["UID FETCH 5 (FLAGS)", "NOOP"]), ("INBOX", ["UID STORE 1:4 +FLAGS (\\Flagged)", "NOOP"])],
+    [("pop3", ["DELE 1", "DELE 3", "QUIT"]), ("INBOX", ["UID STORE 1:* -FLAGS (\\Deleted)", "NOOP"]), ("INBOX", ["UID FETCH 1:* (FLAGS)", "NOOP"])],
+]
+
+_plan_hist, _run_hist = plan, run_shard
+
+
+def plan(tier, seed, scale):
+    specs = _plan_hist(tier, seed, scale)
+    n = int((40 if tier == "quick" else 500) * scale)
+    shards = 8 if tier == "quick" else 16
+    for s in range(shards):
+        specs.append({"prop": PROP, "tier": tier, "seed": seed, "shard": 100 + s, "mode": "sched", "only_flags": True, "sets": SCHED_SETS,
+                      "scripts": list(range(n))[s::shards], "nsched": 5 if tier == "quick" else 25})
+    return specs
+
+
+def run_shard(spec):
+    if spec.get("mode") == "sched":
+        from . import c01
+
+        return c01.run_sched_shard(spec)
+    return _run_hist(spec)
+
+
 def finish(tier, seed, cases, results, errors, wall):
     # carry structured data of the witness to the classifier
     for c in cases:
